@@ -276,7 +276,7 @@ def programs(draw, q):
             f["kind"] = "func"
     ops = []
     for op in prog["ops"]:
-        op = op if op[0] in ("call", "next") else ["next", op[1]]
+        op = op if op[0] in ("call", "next") else ["next", op[1]]  # (no close/throw/leave/drop/callkept in C01 histories)
         ops.append(op)
         if op[0] == "call" and draw(st.booleans()):
             # a sibling call: same function, same argument types, other values (True<->False, 0<->1, 'a'<->'')
@@ -306,6 +306,7 @@ def programs(draw, q):
     prog["ops"] = ops
     prog["drain"] = True
     prog["repeat"] = 1
+    prog["warmup"] = False
     return prog
 
 
